@@ -99,6 +99,22 @@ def run(ctx):
         if t[0] != '0' or t[1] != '1': viol.append(dict(why='re-initialised threaded encoder (threads %s -> %s, preset %s, block size %s) failed: %s %s' % (*n_re, t[0], t[1]), line=l[:4000000], stderr=''))
         elif int(t[2]) < int(t[4]): viol.append(dict(why='threaded encoder re-initialised from %s to %s threads (preset %s, block size %s) while output was queued: %s bytes live right after the re-initialisation, peak %s during the second use, lzma_stream_encoder_mt_memusage() for its options says %s' % (*n_re, t[3], t[4], t[2]), line=l[:4000000], stderr=''))
         elif t[5] != '0' or t[6] != '0': viol.append(dict(why='re-initialised threaded encoder: %s bytes live after lzma_end, %s bad frees' % (t[5], t[6]), line=l[:300], stderr=''))
+    # ---- encoders re-initialised with other options (smaller / larger dictionary, other preset) on the same handle: the
+    #      memory-usage function for the NEW options must cover what stays allocated
+    ol = []
+    dd = (xzgen.gen_data(rng, 3000) * 40)[:100000]
+    for kd in (0, 1, 2, 3):
+        for (pa, da, pb, db) in [(6, 0, 1, 0), (1, 0, 6, 0), (0, 1 << 25, 0, 1 << 16), (0, 1 << 16, 0, 1 << 24), (3, 0, 4, 0), (4, 0, 3, 0), (2, 1 << 22, 5, 1 << 20)]:
+            if kd == 1 and ctx.quick() and (pa, pb) in ((3, 4), (4, 3)): continue
+            ol.append('reopt %d %d %d %d %d %s' % (kd, pa, da, pb, db, dd.hex()))
+    oo, of_ = run_lines(drv, ol, shards=8)
+    for x in of_: viol.append(dict(why='re-initialised encoder crashed under the counting allocator', line=(x[0] or '')[:300], stderr=x[1][-2000:]))
+    for l, o in zip(ol, oo):
+        if o is None: continue
+        w = l.split()[1:6]; t = o.split()
+        if t[0] != '0' or t[1] != '1': viol.append(dict(why='encoder kind %s re-initialised from preset %s/dict %s to preset %s/dict %s failed: %s %s' % (*w, t[0], t[1]), line=l[:300], stderr=''))
+        elif int(t[2]) < int(t[4]) or int(t[2]) < int(t[3]): viol.append(dict(why='encoder kind %s re-initialised from preset %s/dict %s to preset %s/dict %s: %s bytes live right after the re-initialisation, peak %s during the second use, but the memory-usage function for the new options says %s' % (*w, t[3], t[4], t[2]), line=l[:300], stderr=''))
+        elif t[5] != '0' or t[6] != '0': viol.append(dict(why='re-initialised encoder: %s bytes live after lzma_end, %s bad frees' % (t[5], t[6]), line=l[:300], stderr=''))
     # ---- threaded decoder: memlimit_threading / memlimit_stop
     tl, tm = [], []
     # A = large dictionary, little data; B = tiny dictionary, large input/output buffers; C = in between.  Fixed orders (what the
@@ -187,7 +203,7 @@ def run(ctx):
             if not expect_fail and r.returncode != 0: viol.append(dict(why='xz %s failed: %s' % (' '.join(args[:-1]), r.stderr.decode()[:200]), line='', stderr=''))
     finally:
         shutil.rmtree(td, ignore_errors=True)
-    ctx.cov['evaluations'] = len(lines) + len(elines) + len(tl) + len(rl) + len(rel) + 4 + len(cases) + len(pl) * (10 if ctx.quick() else 60)
+    ctx.cov['evaluations'] = len(lines) + len(elines) + len(tl) + len(rl) + len(rel) + len(ol) + 4 + len(cases) + len(pl) * (10 if ctx.quick() else 60)
     ctx.cov['distinct_nontrivial'] = len(stat) + len(emeta) + len(set((m[0], m[1] >= m[2]) for m in tm))
     ctx.cov['rule'] = 'decoders (stream, alone, auto, lzip, index, file_info) x dictionary sizes x limits {1, need/2, need-70000, need-1, need, need+1}; encoder estimates vs measured peak for 6 entry points x presets; threaded decoder on multi-Block files with varying chains under memlimit_threading (1x..3x single-thread need) and memlimit_stop (need-1, need, need+1); xz with user limits; distinct = (limit >= need?, error seen?) etc.'
     ctx.cov['input_distribution'] = dict(limited_runs=len(lines), estimate_runs=len(elines), mt_runs=len(tl))
